@@ -150,6 +150,9 @@ Emit == PrintT(ToJson([ops |->
              LET r == Find(Queries[i])
              IN [op |-> IF Kind = "gnu" THEN "gnu_find" ELSE "sysv_find", class |-> Class, es |-> IF Little THEN "LE" ELSE "AnyB",
                  hashslot |-> "h", symslot |-> "sy", strslot |-> "st", name |-> Queries[i], wf |-> (c.edit = "none"), first |-> First,
-                 exp |-> IF r.out = "ok" THEN [out |-> "ok", idx |-> r.idx, sym |-> r.sym] ELSE [out |-> r.out]]]]))
+                 \* on a table with an edited header no property fixes None vs Err: the answer is left open (only a
+                 \* panic / hang counts there)
+                 exp |-> IF c.edit # "none" THEN [x \in {} |-> 0]
+                         ELSE IF r.out = "ok" THEN [out |-> "ok", idx |-> r.idx, sym |-> r.sym] ELSE [out |-> r.out]]]]))
 Inv == c.stage = 2 => (Prop_Hash /\ Emit)
 =============================================================================
